@@ -322,10 +322,11 @@ pub fn with_arbitrary_source<R>(
 
 // ---------------------------------------------------------------- object graph
 //
-// The live cells behind the simulated stack and memo, as a canonical text: cells are numbered in
+// The live cells behind the simulated stack and memo, as a canonical text.  Cells get an age in
 // the order they were first seen (memo by key, stack bottom first, then the cells `Stack::push`
 // registered; children before parents), which is their allocation order as long as a snapshot is
-// taken after every opcode.  The registry keeps a weak handle to every numbered cell so that an
+// taken after every opcode; the text ranks them depth-first from the roots and uses the age only
+// to order the members of unordered containers.  The registry keeps a weak handle to every numbered cell so that an
 // address is never reused for another cell while numbering is in effect.
 
 struct GraphReg {
@@ -457,14 +458,53 @@ fn graph_text(g: &Generator) -> Option<String> {
         }
         drop(roots);
         live.sort_by_key(|c| reg.serial[&cell_ptr(c)]);
-        let rank: HashMap<usize, usize> = live
+        // canonical ranks: depth-first from the roots (memo by key, stack bottom first, then whatever else is alive, by age),
+        // children in their order; only the members of unordered containers are ordered by age.  The ranks therefore do
+        // not depend on the order in which an opcode allocates its auxiliary cells, nor on cells that died meanwhile.
+        let idx_of: HashMap<usize, usize> = live.iter().enumerate().map(|(i, c)| (cell_ptr(c), i)).collect();
+        let age = |p: &usize| reg.serial.get(p).copied().unwrap_or(u64::MAX);
+        let ordered_kids = |c: &StackObjectRef| -> Vec<usize> {
+            let (a, b, s) = cell_kids(&c.borrow());
+            let mut v: Vec<usize> = a.iter().map(cell_ptr).collect();
+            let mut pairs: Vec<(usize, usize)> = b.iter().map(|(k, x)| (cell_ptr(k), cell_ptr(x))).collect();
+            pairs.sort_by_key(|(k, x)| (age(k), age(x)));
+            for (k, x) in pairs {
+                v.push(k);
+                v.push(x);
+            }
+            let mut members: Vec<usize> = s.iter().map(cell_ptr).collect();
+            members.sort_by_key(|m| age(m));
+            v.extend(members);
+            v
+        };
+        let mut rank: HashMap<usize, usize> = HashMap::new();
+        let mut order: Vec<usize> = Vec::new();
+        let root_ptrs: Vec<usize> = keys
             .iter()
-            .enumerate()
-            .map(|(i, c)| (cell_ptr(c), i))
+            .map(|k| cell_ptr(&g.state.memo[k]))
+            .chain(g.state.stack.inner.iter().map(cell_ptr))
+            .chain(live.iter().map(cell_ptr))
             .collect();
+        for rp in root_ptrs {
+            let mut todo = vec![rp];
+            while let Some(p) = todo.pop() {
+                if rank.contains_key(&p) {
+                    continue;
+                }
+                let Some(&i) = idx_of.get(&p) else { continue };
+                rank.insert(p, order.len());
+                order.push(i);
+                for k in ordered_kids(&live[i]).into_iter().rev() {
+                    if !rank.contains_key(&k) {
+                        todo.push(k);
+                    }
+                }
+            }
+        }
         let r = |c: &StackObjectRef| rank.get(&cell_ptr(c)).copied().unwrap_or(usize::MAX);
         let mut parts: Vec<String> = Vec::new();
-        for c in live.iter() {
+        for &i in order.iter() {
+            let c = &live[i];
             let obj = c.borrow();
             let (a, b, s) = cell_kids(&obj);
             let mut kids: Vec<String> = a.iter().map(|k| r(k).to_string()).collect();
